@@ -159,6 +159,8 @@ def run_ticks(role, ticks, artim=ARTIM):
         if d['n'] != 'idle' and p.dul_socket is not None:
             if d['n'] == 'eof':
                 sock.feed('EOF')
+            elif d['n'] == 'err':
+                sock.feed('ERR')
             elif d['n'] == 'part':
                 # the head of a PDU whose rest never arrives (histories carry no peer data after it)
                 conc.k += 1
